@@ -28,9 +28,32 @@ func ruleShortCircuitLazy(p *Program, r *Report) {
 		}
 		r.Fn(FnName(fn))
 		var evals []*ssa.Call
+		recvOf := map[*ssa.Call]ssa.Value{} // the operand an evaluation evaluates
 		ForEachInstr(fn, func(ins ssa.Instruction) {
-			if c, ok := ins.(*ssa.Call); ok && c.Call.IsInvoke() && c.Call.Method.Name() == "Eval" {
+			c, ok := ins.(*ssa.Call)
+			if !ok {
+				return
+			}
+			if c.Call.IsInvoke() && c.Call.Method.Name() == "Eval" {
 				evals = append(evals, c)
+				recvOf[c] = c.Call.Value
+				return
+			}
+			// a package-local helper that evaluates the expression it is handed (evalOperand(ctx, parent, operand, scope))
+			if g := c.Call.StaticCallee(); g != nil && g.Pkg == fn.Pkg && g.Blocks != nil && g.Name() != "Eval" {
+				for i, q := range g.Params {
+					evaluated := false
+					ForEachInstr(g, func(i2 ssa.Instruction) {
+						if c2, ok := i2.(*ssa.Call); ok && c2.Call.IsInvoke() && c2.Call.Method.Name() == "Eval" && c2.Call.Value == ssa.Value(q) {
+							evaluated = true
+						}
+					})
+					if evaluated && i < len(c.Call.Args) {
+						evals = append(evals, c)
+						recvOf[c] = c.Call.Args[i]
+						break
+					}
+				}
 			}
 		})
 		if len(evals) < 2 {
@@ -63,7 +86,7 @@ func ruleShortCircuitLazy(p *Program, r *Report) {
 			}
 			// or the evaluated operand itself is chosen by the first operand's value: the receiver is a phi whose
 			// incoming edges are the two sides of a branch on that value (`branch := b; if v { branch = a }; branch.Eval`)
-			if ph, isPhi := e.Call.Value.(*ssa.Phi); isPhi && v0 != nil && !lazy {
+			if ph, isPhi := recvOf[e].(*ssa.Phi); isPhi && v0 != nil && !lazy {
 				if id := ph.Block().Idom(); id != nil {
 					if iff, isIf := id.Instrs[len(id.Instrs)-1].(*ssa.If); isIf && DependsOn(iff.Cond, func(x ssa.Value) bool { return x == ssa.Value(v0) }) {
 						sel := true
